@@ -1659,4 +1659,62 @@ VARIANTS = [
 """, "")),
     G("benign comment and blank lines",
       (RULE, "        context.raise_error()  # raise error if collected\n        return value", "        # flush\n\n        context.raise_error()\n        return value")),
+    # ---- round 8: helper tables ---------------------------------------------------------------------------------
+    B("C19 multi() by exact type: subclass defaults shared", "C19", "R19f",
+      (FUNCTIONAL, """    return isinstance(
+        f, (list, set, frozenset, tuple, type({}.values()), type({}.keys()))
+    )""", """    return type(f) in (list, set, frozenset, tuple, type({}.values()), type({}.keys()))""")),
+    B("C12 multi() widened to abstract sequences", "C12", "R12f",
+      (FUNCTIONAL, "from typing import Optional\n", "from typing import Optional\nfrom collections.abc import MutableSequence\n"),
+      (FUNCTIONAL, "        f, (list, set, frozenset, tuple,", "        f, (MutableSequence, set, frozenset, tuple,")),
+    B("C19 copy_value shallow for dict values", "C19", "R19f",
+      (FUNCTIONAL, "        return {k: copy_value(v) for k, v in data.items()}", "        return dict(data)")),
+    B("C17 is_local_var looks at the last scope only", "C17", "R17l",
+      (FUNCTIONAL, "    return not name or LOCALS_NAME in name", "    return not name or name.rpartition('.')[0].endswith(LOCALS_NAME)")),
+    B("C15 valid_attr narrowed to ASCII", "C15", "R15k",
+      (FUNCTIONAL, "    return name.isidentifier() and not iskeyword(name)", "    return name.isascii() and name.isidentifier() and not iskeyword(name)")),
+    B("C01 apply() drops falsy constraints", "C01", "R01g",
+      ("utype/decorator.py", "        if v is not None\n    }", "        if v\n    }")),
+    B("C16 re-registration removes the function's earlier entry", "C16", "R16h",
+      (UBASE, "                self._registry.insert(0, (detector, f, priority))", "                self._registry[:] = [e for e in self._registry if e[1] is not f]\n                self._registry.insert(0, (detector, f, priority))")),
+    B("C16 new entry appended instead of put in front", "C16", "R16h",
+      (UBASE, "                self._registry.insert(0, (detector, f, priority))", "                self._registry.append((detector, f, priority))")),
+    B("C08 dependency supplied by position not counted", "C08", "R06a",
+      (BASE, """ALL:            dependant = set(result)
+            if excluded_keys:
+                dependant.update(excluded_keys)
+""", """            dependant = set(result)
+""")),
+    G("benign multi(): constant tuple hoisted",
+      (FUNCTIONAL, """def multi(f):
+    return isinstance(
+        f, (list, set, frozenset, tuple, type({}.values()), type({}.keys()))
+    )""", """_MULTI = (list, set, frozenset, tuple, type({}.values()), type({}.keys()))
+
+
+def multi(f):
+    return isinstance(f, _MULTI)""")),
+    G("benign copy_value: guard clauses and a loop",
+      (FUNCTIONAL, """    if multi(data):
+        return type(data)([copy_value(d) for d in data])
+    elif isinstance(data, dict):
+        return {k: copy_value(v) for k, v in data.items()}
+    return data""", """    if not multi(data):
+        if not isinstance(data, dict):
+            return data
+        out = {}
+        for k, v in data.items():
+            out[k] = copy_value(v)
+        return out
+    items = []
+    for d in data:
+        items.append(copy_value(d))
+    return type(data)(items)""")),
+    G("benign is_local_var: find() instead of in",
+      (FUNCTIONAL, "    return not name or LOCALS_NAME in name", "    if not name:\n        return True\n    return name.find(LOCALS_NAME) >= 0")),
+    G("benign register(): bisect placement",
+      (UBASE, "                self._registry.insert(0, (detector, f, priority))\n                self._registry.sort(key=lambda v: -v[2])",
+       "                import bisect\n                keys = [-e[2] for e in self._registry]\n                self._registry.insert(bisect.bisect_left(keys, -priority), (detector, f, priority))")),
+    G("benign apply(): constraints filtered in a loop",
+      ("utype/decorator.py", "        if v is not None\n    }", "    }\n    for _k in [k for k, v in constraints.items() if v is None]:\n        del constraints[_k]")),
 ]
